@@ -309,7 +309,7 @@ Definition sem_ok (p : nat * nat * bool) : Prop :=
   | (i, j, c) => forall fa fb psq1 psq2 s, orel i j c s (P1 fa i psq1 s) (P2 fb j psq2 s)
   end.
 
-Hypothesis HR : forall p, In p R -> local_ok g1 g2 ne R p = true \/ sem_ok p.
+Hypothesis HR : forall p, In p R -> local_ok g1 g2 ne false [] R p = true \/ sem_ok p.
 Hypothesis HF : frame_ok g1 g2 R = true.
 
 Lemma pin_any_In i j : pin_any R i j = true -> exists c, In (i, j, c) R.
@@ -1039,7 +1039,7 @@ Proof.
 Qed.
 
 Lemma step_struct i j c a b fa fb psq1 psq2 s :
-  fa + fb <= n -> get_node g1 i = Some a -> get_node g2 j = Some b -> struct_ok g1 g2 ne R a b = true ->
+  fa + fb <= n -> get_node g1 i = Some a -> get_node g2 j = Some b -> struct_ok g1 g2 ne false [] R a b = true ->
   orel i j c s (P1 (S fa) i psq1 s) (P2 (S fb) j psq2 s).
 Proof.
   intros L G1 G2 H. unfold struct_ok in H.
@@ -1299,7 +1299,7 @@ Definition orc_nonempty (ne : list nat) (orc : nat -> nat -> option nat) : Prop 
 Theorem rel_sound g1 g2 ne R input orc :
   orc_nonempty ne orc ->
   frame_ok g1 g2 R = true ->
-  (forall p, In p R -> local_ok g1 g2 ne R p = true \/ sem_ok g1 g2 ne input orc p) ->
+  (forall p, In p R -> local_ok g1 g2 ne false [] R p = true \/ sem_ok g1 g2 ne input orc p) ->
   forall cfg f1 f2, outcome_rel (run g1 cfg orc false f1 input) (run g2 cfg orc false f2 input).
 Proof. intros Hne HF HR cfg f1 f2. apply (run_rel g1 g2 ne R input orc Hne HR HF). Qed.
 
@@ -1308,12 +1308,12 @@ Theorem diffs_sound ne seeds g1 g2 :
   forall input orc, orc_nonempty ne orc ->
   forall cfg f1 f2, outcome_rel (run g1 cfg orc false f1 input) (run g2 cfg orc false f2 input).
 Proof.
-  unfold peg_equiv_diffs. intros H input orc Hne cfg f1 f2.
+  unfold peg_equiv_diffs, peg_equiv_diffs_gen. intros H input orc Hne cfg f1 f2.
   apply app_eq_nil in H as [H1 H2].
   apply (rel_sound g1 g2 ne (reach_all g1 g2 seeds) input orc Hne).
   - destruct (frame_ok g1 g2 (reach_all g1 g2 seeds)); [reflexivity | discriminate].
   - intros p HIn. left. pose proof (filter_nil _ _ H2 p HIn) as E. cbv beta in E.
-    destruct (local_ok g1 g2 ne (reach_all g1 g2 seeds) p); [reflexivity | simpl in E; discriminate].
+    destruct (local_ok g1 g2 ne false [] (reach_all g1 g2 seeds) p); [reflexivity | simpl in E; discriminate].
 Qed.
 
 (* acceptance and error position, when neither run ran out of fuel *)
